@@ -161,9 +161,9 @@ O(id='uper_nsnnwn', props=['C01', 'C02'], kind='width', entry='h_nsnnwn', functi
 O(id='uper_nslength', props=['C01', 'C02'], kind='width', entry='h_nslength', functions=['uper_put_nslength', 'uper_get_nslength'],
   proves=['uper_put_nslength', 'uper_get_nslength'], unwind=34, bound='all size_t lengths, all alignments', min_props=30, **PS)
 O(id='uper_cwn.le31', props=['C01', 'C02'], kind='width', entry='h_cwn', functions=['uper_put_constrained_whole_number_u', 'uper_get_constrained_whole_number'],
-  proves=['uper_put_constrained_whole_number_u', 'uper_get_constrained_whole_number'], unwind=34, bound='all values, widths 0..31, all alignments', min_props=30, **PS)
+  proves=['uper_put_constrained_whole_number_u', 'uper_get_constrained_whole_number'], unwind=34, bound='all values, widths 0..31, all alignments', min_props=30, timeout=1500, **PS)
 O(id='uper_cwn.gt31', props=['C01', 'C02'], kind='width', entry='h_cwn', functions=['uper_put_constrained_whole_number_u', 'uper_get_constrained_whole_number'],
-  unwind=34, defines=['VF_CWN_WIDE'], bound='all values, widths 32..64 (octet-aligned start; alignment is the business of asn_put_few_bits)', min_props=30, timeout=600, **PS)
+  unwind=34, defines=['VF_CWN_WIDE'], bound='all values, widths 32..64 (octet-aligned start; alignment is the business of asn_put_few_bits)', min_props=30, timeout=1500, **PS)
 
 # ---------------------------------------------------------------- C07: encoder API
 def cb_restrict(outer, inner):
@@ -262,7 +262,7 @@ for _rb in (0, 1, 8, 16, 32, 64):
 O(id='NativeInteger_uper.unconstrained', props=['C01', 'C02', 'C13'], kind='width', entry='h_NativeInteger_uper_unconstrained',
   functions=['NativeInteger_encode_uper', 'INTEGER_encode_uper', 'NativeInteger_decode_uper', 'INTEGER_decode_uper'],
   unwind=26, cbmc=IUC + ['--no-malloc-may-fail'], bound='every long value', min_props=100, timeout=1200, tier='experimental', **IU)
-O(id='NativeInteger_decode_uper.any', props=['C04', 'C14'], kind='bounded', entry='h_NativeInteger_decode_uper_any',
+O(id='NativeInteger_decode_uper.any', props=['C04', 'C14'], kind='bounded', entry='h_NativeInteger_decode_uper_any', tier='experimental',
   functions=['NativeInteger_decode_uper', 'INTEGER_decode_uper'], unwind=26,
   cbmc=IUC + ['--malloc-may-fail', '--malloc-fail-null', '--memory-leak-check'],
   bound='every input of at most 96 bits, every constraint record (flags 0..7, range_bits -1..64, any bounds), signed/unsigned; every allocation may fail',
